@@ -213,9 +213,13 @@ theorem updNbrs_length {mpg : Int} {part : List Nat} {ip : Nat} {row : Row}
     simp only [updNbrs] at h
     split at h
     · exact ih h
-    · split at h
-      · rw [ih h, List.length_set]
-      · simp at h
+    · have key : ∀ ug : Int, (if inRange mpg ug = true then updNbrs mpg part ip row (gs.set u (some ug))
+          else Except.error Abort.bucketIndex) = Except.ok gs' → gs'.length = gs.length := by
+        intro ug h
+        split at h
+        · rw [ih h, List.length_set]
+        · simp at h
+      split at h <;> exact key _ h
 
 theorem updNbrs_none {mpg : Int} {part : List Nat} {ip : Nat} {row : Row}
     {gs gs' : List (Option Int)} (h : updNbrs mpg part ip row gs = .ok gs') (v : Nat)
@@ -228,11 +232,428 @@ theorem updNbrs_none {mpg : Int} {part : List Nat} {ip : Nat} {row : Row}
     split at h
     · exact ih h hv
     · next og hog =>
+      have key : ∀ ug : Int, (if inRange mpg ug = true then updNbrs mpg part ip row (gs.set u (some ug))
+          else Except.error Abort.bucketIndex) = Except.ok gs' → gs'.getD v none = none := by
+        intro ug h
+        split at h
+        · refine ih h ?_
+          have hne : u ≠ v := by
+            intro e; subst e; rw [hv] at hog; simp at hog
+          simpa [List.getD_eq_getElem?_getD, List.getElem?_set_ne hne] using hv
+        · simp at h
+      split at h <;> exact key _ h
+
+/-! ## the pass invariant -/
+
+theorem set_getD_self (l : List Nat) (v : Nat) (hv : v < l.length) : l.set v (l.getD v 0) = l := by
+  apply List.ext_getElem (by simp)
+  intro i h1 h2
+  by_cases h : v = i
+  · subst h; simp [List.getD_eq_getElem?_getD, List.getElem?_eq_getElem hv]
+  · simp [List.getElem_set_ne h]
+
+theorem getD_set_none (gs : List (Option Int)) (v u : Nat) (hv : v < gs.length)
+    (h : gs.getD u none = none ∨ u = v) : (gs.set v none).getD u none = none := by
+  by_cases e : v = u
+  · subst e; simp [List.getD_eq_getElem?_getD, List.getElem?_set_self hv]
+  · rcases h with h | h
+    · simpa [List.getD_eq_getElem?_getD, List.getElem?_set_ne e] using h
+    · exact absurd h.symm e
+
+theorem partOf_le_one {p : List Nat} (h : ∀ i ∈ p, i ≤ 1) (v : Nat) : partOf p v ≤ 1 := by
+  unfold partOf
+  by_cases hv : v < p.length
+  · simp only [List.getD_eq_getElem?_getD, List.getElem?_eq_getElem hv, Option.getD_some]
+    exact h _ (List.getElem_mem _)
+  · simp [List.getD_eq_getElem?_getD, List.getElem?_eq_none (by omega : p.length ≤ v)]
+
+theorem wOf_nonneg {ws : List Int} (h : ∀ w ∈ ws, 0 ≤ w) (v : Nat) : 0 ≤ wOf ws v := by
+  unfold wOf
+  by_cases hv : v < ws.length
+  · simp only [List.getD_eq_getElem?_getD, List.getElem?_eq_getElem hv, Option.getD_some]
+    exact h _ (List.getElem_mem _)
+  · simp [List.getD_eq_getElem?_getD, List.getElem?_eq_none (by omega : ws.length ≤ v)]
+
+/-- Facts about a `(partition, load 0, load 1)` triple relative to the pass start `o`. -/
+structure Good (g : Graph) (ws : List Int) (cap lb0 lb1 : Int) (CT : Prop) (o : Outer)
+    (bound : Nat) (cutv : Int) (part : List Nat) (a b : Int) : Prop where
+  plen : part.length = o.part.length
+  ple : ∀ i ∈ part, i ≤ 1
+  pw0 : a = load ws part 0
+  pw1 : b = load ws part 1
+  capb : (∀ w ∈ ws, 0 ≤ w) → a ≤ max lb0 cap ∧ b ≤ max lb1 cap
+  hamc : ham o.part part ≤ bound
+  cut : CT → cutv = edgeCut g part
+
+/-- Invariant of the move loop (`k` = `move_num`).  `CT`: the tracked cut is known to be the
+true cut (from the debug assertion, or from the gain invariant). -/
+structure Inv (g : Graph) (ws : List Int) (cap lb0 lb1 : Int) (CT : Prop) (o : Outer)
+    (k : Nat) (st : PassSt) : Prop where
+  cur : Good g ws cap lb0 lb1 CT o k st.cur st.part st.pw0 st.pw1
+  glen : st.gains.length = o.part.length
+  hlen : st.hist.length = k
+  hist : ∀ e ∈ st.hist, e.1 < o.part.length ∧ st.gains.getD e.1 none = none
+  bat : ∀ b, st.bestAt = some b → b < k
+  ble : st.best ≤ o.best
+  bnone : st.bestAt = none → st.best = o.best
+  snap : ∃ sp sa sb,
+    restore ws (st.hist.drop (rewindTo st.bestAt)) (st.part, st.pw0, st.pw1) = (sp, sa, sb) ∧
+    Good g ws cap lb0 lb1 CT o (rewindTo st.bestAt) st.best sp sa sb
+
+theorem Inv.setBad {g ws cap lb0 lb1 CT o k st} (I : Inv g ws cap lb0 lb1 CT o k st) (b : Nat) :
+    Inv g ws cap lb0 lb1 CT o k { st with bad := b } :=
+  ⟨I.cur, I.glen, I.hlen, I.hist, I.bat, I.ble, I.bnone, I.snap⟩
+
+theorem rewindTo_le {k : Nat} {b : Option Nat} (h : ∀ x, b = some x → x < k) : rewindTo b ≤ k := by
+  cases b with
+  | none => simp [rewindTo]
+  | some x => have := h x rfl; simp only [rewindTo]; omega
+
+/-- The moved vertex in the new state: `Good` for the current triple. -/
+theorem good_move {g ws cap lb0 lb1 CT o k} {st : PassSt} {v : Nat} {cutv : Int}
+    (hws : o.part.length = ws.length)
+    (G : Good g ws cap lb0 lb1 CT o k st.cur st.part st.pw0 st.pw1)
+    (hv : v < o.part.length) (hadm : ¬ cap < targetW ws st v)
+    (hc : CT → cutv = edgeCut g (st.part.set v (1 - partOf st.part v))) :
+    Good g ws cap lb0 lb1 CT o (k + 1) cutv (st.part.set v (1 - partOf st.part v))
+      (if partOf st.part v = 0 then st.pw0 - wOf ws v else st.pw0 + wOf ws v)
+      (if partOf st.part v = 0 then st.pw1 + wOf ws v else st.pw1 - wOf ws v) := by
+  have hip := partOf_le_one G.ple v
+  have hvl : v < st.part.length := by rw [G.plen]; exact hv
+  have hl : st.part.length = ws.length := by rw [G.plen]; exact hws
+  have l0 := load_set ws st.part v (1 - partOf st.part v) 0 hvl hl
+  have l1 := load_set ws st.part v (1 - partOf st.part v) 1 hvl hl
+  have p0 := G.pw0
+  have p1 := G.pw1
+  refine ⟨by rw [List.length_set]; exact G.plen, ?_, ?_, ?_, ?_, ?_, hc⟩
+  · intro i hi
+    rcases List.mem_or_eq_of_mem_set hi with h | h
+    · exact G.ple i h
+    · omega
+  · rw [l0]
+    rcases (by omega : partOf st.part v = 0 ∨ partOf st.part v = 1) with h | h <;> simp [h] <;> omega
+  · rw [l1]
+    rcases (by omega : partOf st.part v = 0 ∨ partOf st.part v = 1) with h | h <;> simp [h] <;> omega
+  · intro hnn
+    have hw := wOf_nonneg hnn v
+    obtain ⟨c0, c1⟩ := G.capb hnn
+    simp only [targetW] at hadm
+    rcases (by omega : partOf st.part v = 0 ∨ partOf st.part v = 1) with h | h
+    · simp only [h] at hadm ⊢
+      simp at hadm ⊢
+      omega
+    · simp only [h] at hadm ⊢
+      simp at hadm ⊢
+      omega
+  · exact Nat.le_trans (ham_set _ _ _ _) (by have := G.hamc; omega)
+
+theorem applyMove_inv {prm : Params} {g : Graph} {ws : List Int} {mpg cap lb0 lb1 : Int}
+    {CT : Prop} {o : Outer} {k : Nat} {st st' : PassSt} {v : Nat} {gn : Int} {nS : Nat}
+    (hws : o.part.length = ws.length)
+    (I : Inv g ws cap lb0 lb1 CT o k st)
+    (hv : v < o.part.length) (hgv : st.gains.getD v none = some gn)
+    (hadm : ¬ cap < targetW ws st v)
+    (hcs : CT → prm.dbg = true ∨ st.cur - gn = edgeCut g (st.part.set v (1 - partOf st.part v)))
+    (h : applyMove prm g ws mpg st k v gn nS = .ok st') :
+    Inv g ws cap lb0 lb1 CT o (k + 1) st' := by
+  unfold applyMove at h
+  simp only at h
+  split at h
+  · simp at h
+  · next hdbg =>
+    split at h
+    · simp at h
+    · next gains' hu =>
+      simp only [Except.ok.injEq] at h
+      subst h
+      have hcut : CT → st.cur - gn = edgeCut g (st.part.set v (1 - partOf st.part v)) := by
+        intro ct
+        rcases hcs ct with hd | he
+        · simpa [hd] using hdbg
+        · exact he
+      have hvg : v < st.gains.length := by rw [I.glen]; exact hv
+      have G' := good_move hws I.cur hv hadm hcut
+      have hnotin : ∀ e ∈ st.hist, e.1 ≠ v := by
+        intro e he hev
+        have := (I.hist e he).2
+        rw [hev, hgv] at this
+        simp at this
+      refine ⟨G', ?_, ?_, ?_, ?_, ?_, ?_, ?_⟩
+      · rw [updNbrs_length hu, List.length_set]; exact I.glen
+      · simp [I.hlen]
+      · intro e he
+        simp only [List.mem_append, List.mem_singleton] at he
+        rcases he with he | he
+        · exact ⟨(I.hist e he).1, updNbrs_none hu _ (getD_set_none _ _ _ hvg (Or.inl (I.hist e he).2))⟩
+        · subst he
+          exact ⟨hv, updNbrs_none hu _ (getD_set_none _ _ _ hvg (Or.inr rfl))⟩
+      · intro b hb
+        simp only at hb
+        split at hb
+        · simp only [Option.some.injEq] at hb; omega
+        · have := I.bat b hb; omega
+      · simp only
+        have := I.ble
+        split <;> omega
+      · intro hb
+        simp only at hb ⊢
+        split at hb
+        · simp at hb
+        · next hlt => simp only [hlt, if_false]; exact I.bnone hb
+      · simp only
+        by_cases hlt : st.cur - gn < st.best
+        · simp only [hlt, if_true]
+          refine ⟨_, _, _, ?_, G'⟩
+          have : (st.hist ++ [(v, partOf st.part v)]).drop (rewindTo (some k)) = [] := by
+            apply List.drop_eq_nil_of_le
+            simp [rewindTo, I.hlen]
+          rw [this]
+          rfl
+        · simp only [hlt, if_false]
+          obtain ⟨sp, sa, sb, hr, GS⟩ := I.snap
+          have hrk : rewindTo st.bestAt ≤ st.hist.length := by
+            rw [I.hlen]; exact rewindTo_le I.bat
+          refine ⟨sp, sa, sb, ?_, GS⟩
+          rw [List.drop_append_of_le_length hrk, restore_append]
+          have hnd : ∀ e ∈ st.hist.drop (rewindTo st.bestAt), e.1 ≠ v :=
+            fun e he => hnotin e (List.mem_of_mem_drop he)
+          have e0 : (if partOf st.part v = 0 then st.pw0 - wOf ws v else st.pw0 + wOf ws v) =
+              st.pw0 + (if partOf st.part v = 0 then - wOf ws v else wOf ws v) := by
+            split <;> omega
+          have e1 : (if partOf st.part v = 0 then st.pw1 + wOf ws v else st.pw1 - wOf ws v) =
+              st.pw1 + (if partOf st.part v = 0 then wOf ws v else - wOf ws v) := by
+            split <;> omega
+          rw [e0, e1, restore_comm ws _ _ _ _ _ _ _ _ hnd, hr]
+          have hspv : sp.getD v 0 = partOf st.part v := by
+            have := restore_getD ws _ (st.part, st.pw0, st.pw1) v hnd
+            rw [hr] at this
+            exact this
+          have hvsp : v < sp.length := by rw [GS.plen]; exact hv
+          simp only [restore, List.set_set]
+          rw [← hspv, set_getD_self sp v hvsp]
+          congr 1
+          congr 1 <;> split <;> omega
+
+/-- Hypotheses on an additional invariant `X` (the gain invariant in `fm_total`; `True` when the
+debug assertion supplies the cut equation). -/
+structure StepHyp (prm : Params) (g : Graph) (ws : List Int) (mpg cap lb0 lb1 : Int) (CT : Prop)
+    (o : Outer) (X : PassSt → Prop) : Prop where
+  bad : ∀ st b, X st → X { st with bad := b }
+  step : ∀ k st v gn nS st', Inv g ws cap lb0 lb1 CT o k st → X st →
+    st.gains.getD v none = some gn → v < o.part.length →
+    applyMove prm g ws mpg st k v gn nS = .ok st' → X st'
+  cut : ∀ k st v gn, Inv g ws cap lb0 lb1 CT o k st → X st →
+    st.gains.getD v none = some gn → v < o.part.length → CT →
+    prm.dbg = true ∨ st.cur - gn = edgeCut g (st.part.set v (1 - partOf st.part v))
+
+theorem movesLoop_inv {ch : Nat → Nat} {prm : Params} {g : Graph} {ws : List Int}
+    {mpg cap lb0 lb1 : Int} {CT : Prop} {o : Outer} {X : PassSt → Prop}
+    (hws : o.part.length = ws.length)
+    (H : StepHyp prm g ws mpg cap lb0 lb1 CT o X)
+    (fuel k : Nat) (st st' : PassSt) (I : Inv g ws cap lb0 lb1 CT o k st) (hX : X st)
+    (hk : ∀ m, prm.maxMoves = some m → k ≤ m)
+    (h : movesLoop ch prm g ws cap mpg fuel k st = .ok st') :
+    ∃ k', Inv g ws cap lb0 lb1 CT o k' st' ∧ X st' ∧ (∀ m, prm.maxMoves = some m → k' ≤ m) := by
+  induction fuel generalizing k st with
+  | zero => simp [movesLoop] at h
+  | succ fuel ih =>
+    simp only [movesLoop] at h
+    split at h
+    · simp only [Except.ok.injEq] at h; subst h; exact ⟨k, I, hX, hk⟩
+    · next hlim =>
       split at h
-      · refine ih h ?_
-        have hne : u ≠ v := by
-          intro e; subst e; rw [hv] at hog; simp at hog
-        simpa [List.getD_eq_getElem?_getD, List.getElem?_set_ne hne] using hv
+      · simp only [Except.ok.injEq] at h; subst h; exact ⟨k, I, hX, hk⟩
+      · next gn s hsel =>
+        split at h
+        · simp only [Except.ok.injEq] at h; subst h; exact ⟨k, I, hX, hk⟩
+        · split at h
+          · simp at h
+          · next st1 ham1 =>
+            obtain ⟨hne, hall⟩ := select_spec hsel
+            have hp := hall _ (pick_mem (ch k) s hne)
+            have hvn : pick (ch k) s < o.part.length := by rw [← I.glen]; exact hp.1
+            have I1 := I.setBad (if gn ≤ 0 then st.bad + 1 else 0)
+            have X1 := H.bad st (if gn ≤ 0 then st.bad + 1 else 0) hX
+            have I2 := applyMove_inv hws I1 hvn hp.2.1 hp.2.2
+              (H.cut k _ _ gn I1 X1 hp.2.1 hvn) ham1
+            have X2 := H.step k _ _ gn _ _ I1 X1 hp.2.1 hvn ham1
+            refine ih (k + 1) st1 I2 X2 ?_ h
+            intro m hm
+            have : ¬ m ≤ k := by simpa [limitReached, hm] using hlim
+            omega
+
+/-! ## one pass, the pass loop -/
+
+theorem kept_append (ms rs : List Nat) (m r : Nat) (h : ms.length = rs.length) :
+    kept (ms ++ [m]) (rs ++ [r]) = kept ms rs + (m - r) := by
+  induction ms generalizing rs with
+  | nil =>
+    cases rs with
+    | nil => simp [kept]
+    | cons _ _ => simp at h
+  | cons a as ih =>
+    cases rs with
+    | nil => simp at h
+    | cons b bs =>
+      simp only [List.cons_append, kept]
+      rw [ih bs (by simpa using h)]
+      omega
+
+/-- Invariant of the pass loop (`i` = number of passes done, `p0` = input ids, `c0` = input cut). -/
+structure OInv (g : Graph) (ws : List Int) (cap lb0 lb1 : Int) (CT : Prop) (prm : Params)
+    (p0 : List Nat) (c0 : Int) (i : Nat) (o : Outer) : Prop where
+  plen : o.part.length = p0.length
+  ple : ∀ x ∈ o.part, x ≤ 1
+  pw0 : o.pw0 = load ws o.part 0
+  pw1 : o.pw1 = load ws o.part 1
+  capb : (∀ w ∈ ws, 0 ≤ w) → o.pw0 ≤ max lb0 cap ∧ o.pw1 ≤ max lb1 cap
+  cut : CT → o.best = edgeCut g o.part
+  cutle : o.best ≤ c0
+  mlen : o.moves.length = i
+  rlen : o.rewound.length = i
+  mle : ∀ m, prm.maxMoves = some m → ∀ x ∈ o.moves, x ≤ m
+  rle : ∀ x ∈ o.moves.zip o.rewound, x.2 ≤ x.1
+  hamk : ham p0 o.part ≤ kept o.moves o.rewound
+
+theorem initPass_inv {g : Graph} {ws : List Int} {cap lb0 lb1 : Int} {CT : Prop} {prm : Params}
+    {p0 : List Nat} {c0 : Int} {i : Nat} {o : Outer}
+    (O : OInv g ws cap lb0 lb1 CT prm p0 c0 i o) :
+    Inv g ws cap lb0 lb1 CT o 0 (initPass g o) := by
+  have G : Good g ws cap lb0 lb1 CT o 0 o.best o.part o.pw0 o.pw1 :=
+    ⟨rfl, O.ple, O.pw0, O.pw1, O.capb, by simp [ham_self], O.cut⟩
+  refine ⟨G, by simp [initPass], rfl, ?_, ?_, Int.le_refl _, fun _ => rfl, ?_⟩
+  · intro e he; simp [initPass] at he
+  · intro b hb; simp [initPass] at hb
+  · exact ⟨o.part, o.pw0, o.pw1, rfl, G⟩
+
+theorem onePass_inv {ch : Nat → Nat} {prm : Params} {g : Graph} {ws : List Int}
+    {mpg cap lb0 lb1 : Int} {CT : Prop} {p0 : List Nat} {c0 : Int} {i : Nat} {o o' : Outer}
+    {X : PassSt → Prop}
+    (hws : p0.length = ws.length)
+    (O : OInv g ws cap lb0 lb1 CT prm p0 c0 i o)
+    (H : StepHyp prm g ws mpg cap lb0 lb1 CT o X) (hX : X (initPass g o))
+    (h : onePass ch prm g ws cap mpg o = .ok o') :
+    OInv g ws cap lb0 lb1 CT prm p0 c0 (i + 1) o' ∧ o'.best ≤ o.best := by
+  unfold onePass at h
+  split at h
+  · simp at h
+  · split at h
+    · simp at h
+    · next st hml =>
+      simp only at h
+      split at h
       · simp at h
+      · next hr =>
+        simp only [Except.ok.injEq] at h
+        subst h
+        obtain ⟨k', I, -, hkm⟩ := movesLoop_inv (by rw [O.plen]; exact hws) H _ 0 _ _
+          (initPass_inv O) hX (fun m _ => Nat.zero_le m) hml
+        obtain ⟨sp, sa, sb, hres, GS⟩ := I.snap
+        rw [hres]
+        have hrk : rewindTo st.bestAt ≤ k' := rewindTo_le I.bat
+        refine ⟨⟨by rw [GS.plen]; exact O.plen, GS.ple, GS.pw0, GS.pw1, GS.capb,
+          fun ct => GS.cut ct, Int.le_trans I.ble O.cutle, by simp [O.mlen], by simp [O.rlen],
+          ?_, ?_, ?_⟩, I.ble⟩
+        · intro m hm x hx
+          simp only [List.mem_append, List.mem_singleton] at hx
+          rcases hx with hx | hx
+          · exact O.mle m hm x hx
+          · rw [hx, I.hlen]; exact hkm m hm
+        · intro x hx
+          rw [List.zip_append (by rw [O.mlen, O.rlen])] at hx
+          simp only [List.mem_append, List.zip_cons_cons, List.zip_nil_right, List.mem_singleton] at hx
+          rcases hx with hx | hx
+          · exact O.rle x hx
+          · subst hx; simp
+        · rw [kept_append _ _ _ _ (by rw [O.mlen, O.rlen]), I.hlen]
+          have h1 := ham_triangle p0 o.part sp O.plen.symm GS.plen.symm
+          have h2 := GS.hamc
+          have h3 := O.hamk
+          show ham p0 sp ≤ _
+          omega
+
+theorem passLoop_inv {ch : Nat → Nat → Nat} {prm : Params} {g : Graph} {ws : List Int}
+    {mpg cap lb0 lb1 : Int} {CT : Prop} {p0 : List Nat} {c0 : Int} {X : PassSt → Prop}
+    (hws : p0.length = ws.length)
+    (H : ∀ i o, OInv g ws cap lb0 lb1 CT prm p0 c0 i o →
+      StepHyp prm g ws mpg cap lb0 lb1 CT o X ∧ X (initPass g o))
+    (fuel i : Nat) (o o' : Outer)
+    (O : OInv g ws cap lb0 lb1 CT prm p0 c0 i o)
+    (hi : ∀ m, prm.maxPasses = some m → i ≤ m)
+    (h : passLoop ch prm g ws cap mpg fuel i o = .ok o') :
+    ∃ i', OInv g ws cap lb0 lb1 CT prm p0 c0 i' o' ∧ (∀ m, prm.maxPasses = some m → i' ≤ m) := by
+  induction fuel generalizing i o with
+  | zero => simp [passLoop] at h
+  | succ fuel ih =>
+    simp only [passLoop] at h
+    split at h
+    · simp only [Except.ok.injEq] at h; subst h; exact ⟨i, O, hi⟩
+    · next hlim =>
+      have hi' : ∀ m, prm.maxPasses = some m → i + 1 ≤ m := by
+        intro m hm
+        have : ¬ m ≤ i := by simpa [limitReached, hm] using hlim
+        omega
+      split at h
+      · simp at h
+      · next o1 hop =>
+        obtain ⟨O1, -⟩ := onePass_inv hws O (H i o O).1 (H i o O).2 hop
+        split at h
+        · simp only [Except.ok.injEq] at h; subst h; exact ⟨i + 1, O1, hi'⟩
+        · exact ih (i + 1) o1 O1 hi' h
+
+/-! ## the whole run -/
+
+theorem run_inv {ch : Nat → Nat → Nat} {prm : Params} {capOpt : Option Int} {g : Graph}
+    {ws : List Int} {p : List Nat} {r : Result} {CT : Prop} {X : PassSt → Prop}
+    (H : ∀ i o, OInv g ws (capOf capOpt ws p) (load ws p 0) (load ws p 1) CT prm p (edgeCut g p) i o →
+      StepHyp prm g ws (maxPossibleGain g) (capOf capOpt ws p) (load ws p 0) (load ws p 1) CT o X ∧
+        X (initPass g o))
+    (h : run ch prm capOpt g ws p = .ok r) (hne : p ≠ []) :
+    ∃ i o, OInv g ws (capOf capOpt ws p) (load ws p 0) (load ws p 1) CT prm p (edgeCut g p) i o ∧
+      (∀ m, prm.maxPasses = some m → i ≤ m) ∧ r = ⟨o.part, o.moves, o.rewound, o.logs⟩ := by
+  unfold run at h
+  split at h
+  · simp at h
+  · next hl1 =>
+    split at h
+    · simp at h
+    · split at h
+      · next he => simp at he; exact absurd he hne
+      · split at h
+        · simp at h
+        · next hany =>
+          simp only at h
+          split at h
+          · simp at h
+          · split at h
+            · simp at h
+            · next o hpl =>
+              simp only [Outcome.ok.injEq] at h
+              have hle : ∀ x ∈ p, x ≤ 1 := by
+                intro x hx
+                have h1 : ¬ (1 < x) := fun hh => hany (List.any_eq_true.mpr ⟨x, hx, by simpa using hh⟩)
+                omega
+              have O0 : OInv g ws (capOf capOpt ws p) (load ws p 0) (load ws p 1) CT prm p
+                  (edgeCut g p) 0
+                  { part := p, pw0 := load ws p 0, pw1 := load ws p 1, best := edgeCut g p,
+                    moves := [], rewound := [], logs := [] } :=
+                ⟨rfl, hle, rfl, rfl, fun _ => ⟨Int.le_max_left _ _, Int.le_max_left _ _⟩,
+                  fun _ => rfl, Int.le_refl _, rfl, rfl, by simp, by simp, by simp [ham_self]⟩
+              obtain ⟨i', O', hi'⟩ := passLoop_inv (by simpa using hl1) H _ 0 _ _ O0
+                (fun m _ => Nat.zero_le m) hpl
+              exact ⟨i', o, O', hi', h.symm⟩
+
+theorem stepHyp_trivial (prm : Params) (g : Graph) (ws : List Int) (mpg cap lb0 lb1 : Int)
+    (o : Outer) : StepHyp prm g ws mpg cap lb0 lb1 (prm.dbg = true) o (fun _ => True) :=
+  ⟨fun _ _ _ => trivial, fun _ _ _ _ _ _ _ _ _ _ _ => trivial, fun _ _ _ _ _ _ _ _ ct => Or.inl ct⟩
+
+theorem run_empty {ch : Nat → Nat → Nat} {prm : Params} {capOpt : Option Int} {g : Graph}
+    {ws : List Int} {r : Result} (h : run ch prm capOpt g ws [] = .ok r) : r = ⟨[], [], [], []⟩ := by
+  unfold run at h
+  split at h
+  · simp at h
+  · split at h
+    · simp at h
+    · simp at h; exact h.symm
 
 end Coupe.Fm
